@@ -436,13 +436,25 @@ fn permutations<T: Clone>(v: &[T]) -> Vec<Vec<T>> {
     out
 }
 
+/// Alphabet entries are integers, except that +-7 stand for +-0.5: a value the integer arithmetic
+/// truncates to 0, so that the hard decision on the quantised LLR (1) differs from the sign of the
+/// raw LLR (0). The zero-iteration shortcut is defined on the raw signs, everything after it on the
+/// arithmetic's own decisions.
+fn val(v: i64) -> f64 {
+    match v {
+        7 => 0.5,
+        -7 => -0.5,
+        _ => v as f64,
+    }
+}
+
 fn llr_vectors(n: usize, alpha: &[i64]) -> Vec<Vec<f64>> {
     let k = alpha.len() as u64;
     (0..k.pow(n as u32))
         .map(|mut i| {
             (0..n)
                 .map(|_| {
-                    let v = alpha[(i % k) as usize] as f64;
+                    let v = val(alpha[(i % k) as usize]);
                     i /= k;
                     v
                 })
@@ -479,12 +491,12 @@ fn wide_vectors(m: &Small, alpha: &[i64]) -> Vec<Vec<f64>> {
         for p in 0..n {
             for &v in alpha {
                 let mut x = base.clone();
-                x[p] = v as f64;
+                x[p] = val(v);
                 out.push(x.clone());
                 let q = (p + 1) % n;
                 for &u in alpha {
                     let mut y = x.clone();
-                    y[q] = u as f64;
+                    y[q] = val(u);
                     out.push(y);
                 }
             }
@@ -785,6 +797,23 @@ pub fn run(run: &Run) -> i32 {
                 }
             }
         }
+        // sub-quantum LLRs (+0.5 truncates to 0: quantised decision 1, raw sign 0)
+        let h3: Vec<i64> = vec![-2, 7, 1];
+        let h4: Vec<i64> = vec![-2, 7, 1, -7];
+        for m in m2(2, 3) {
+            work.push((Case { m: m.clone(), mname: format!("2x3:{}", m.alist_like()), order: scrambled(&m, 2) }, h4.clone()));
+        }
+        for m in m2(2, 4) {
+            work.push((Case { m: m.clone(), mname: format!("2x4:{}", m.alist_like()), order: scrambled(&m, 0) }, if run.thorough() { h4.clone() } else { h3.clone() }));
+        }
+        for m in m2(3, 4) {
+            work.push((Case { m: m.clone(), mname: format!("3x4:{}", m.alist_like()), order: scrambled(&m, 2) }, h3.clone()));
+        }
+        for (name, m) in named() {
+            if m.n <= 6 || run.thorough() {
+                work.push((Case { m: m.clone(), mname: name.to_string(), order: scrambled(&m, 0) }, h3.clone()));
+            }
+        }
         // all-zero rows (vacuous checks) in every position, other rows of weight >= 2
         {
             let rows3: Vec<u64> = vec![0b000, 0b011, 0b101, 0b110, 0b111];
@@ -859,7 +888,7 @@ pub fn run(run: &Run) -> i32 {
         run,
         acc,
         Coverage {
-            rule: "equality clause: generic flooding and layered decoders instantiated with a checker-supplied exact integer min-sum arithmetic inside a probing wrapper (tags every LLR with its variable index, logs every trait call with arguments and results); every matrix with row weights >= 2 of shapes 2x3 (EVERY insertion order of its entries), 2x4, 3x4 (three scrambled insertion orders), every 4x3 matrix with at least one all-zero row and the other rows of weight >= 2, and six named matrices x LLR in an integer alphabet ^n x limits {0..4}; verdict/word/iterations AND the normalised call log (one check update per row then one variable update per column per flooding iteration; row-ordered single-check updates with the variable vector seen at call time for layered) must equal a textbook implementation, both on a fresh decoder and on one long-lived decoder per (matrix, schedule) that has already decoded all earlier frames of the enumeration. Exactness clause: every forest (reference acyclicity test) with check degree >= 2 of the listed shapes, all labellings, LLR in {-2.5,-0.7,0.3,1.1,4}^n (3-value sub-alphabet for the largest shapes) with non-codeword sign pattern, Phif64 and Tanhf64 inside a forcing wrapper (syndrome test always fails), both schedules, limits = diameter and = number of nodes: final per-bit LLR vs brute-force posterior within 1e-9 rel + 1e-9 abs. Non-trivial = at least one iteration run.".into(),
+            rule: "equality clause: generic flooding and layered decoders instantiated with a checker-supplied exact integer min-sum arithmetic inside a probing wrapper (tags every LLR with its variable index, logs every trait call with arguments and results); every matrix with row weights >= 2 of shapes 2x3 (EVERY insertion order of its entries), 2x4, 3x4 (three scrambled insertion orders), every 4x3 matrix with at least one all-zero row and the other rows of weight >= 2, and six named matrices x LLR in an integer alphabet ^n (one pass per shape with +-0.5 in the alphabet: the integer arithmetic truncates it to 0, so the decision on the quantised LLR differs from the raw sign the zero-iteration shortcut uses) x limits {0..4}; verdict/word/iterations AND the normalised call log (one check update per row then one variable update per column per flooding iteration; row-ordered single-check updates with the variable vector seen at call time for layered) must equal a textbook implementation, both on a fresh decoder and on one long-lived decoder per (matrix, schedule) that has already decoded all earlier frames of the enumeration. Exactness clause: every forest (reference acyclicity test) with check degree >= 2 of the listed shapes, all labellings, LLR in {-2.5,-0.7,0.3,1.1,4}^n (3-value sub-alphabet for the largest shapes) with non-codeword sign pattern, Phif64 and Tanhf64 inside a forcing wrapper (syndrome test always fails), both schedules, limits = diameter and = number of nodes: final per-bit LLR vs brute-force posterior within 1e-9 rel + 1e-9 abs. Non-trivial = at least one iteration run.".into(),
             exhaustive: true,
             extra,
             graph: None,
